@@ -46,9 +46,16 @@ INTUITIONISTIC_REWRITES = {
     "remove_orphaned_variables", "remove_empty_quantifications", "join_nested_quantifiers"}
 
 
-def ask_driver(requests):
-    p = subprocess.run([DRIVER], input="\n".join(requests) + "\n", stdout=subprocess.PIPE, text=True, timeout=1800)
-    return p.stdout.splitlines()
+def ask_driver(requests, timeout=1800):
+    """Answers of the model driver; on timeout the answers produced so far (the rest is missing)."""
+    import tempfile
+    with tempfile.TemporaryFile("w+") as out:
+        try:
+            subprocess.run([DRIVER], input="\n".join(requests) + "\n", stdout=out, text=True, timeout=timeout)
+        except subprocess.TimeoutExpired:
+            pass
+        out.seek(0)
+        return out.read().splitlines()
 
 
 def cex_request(req, impl, seed=1, tries=3000):
@@ -76,22 +83,25 @@ def cex_request(req, impl, seed=1, tries=3000):
     return None
 
 
+SEARCH_BUDGET_S = int(__import__("os").environ.get("VERIF_SEARCH_BUDGET", "90"))
+
+
 def search_generic(mismatches, outdir):
-    """Evaluate the implementation's outputs on the disagreeing inputs against the reference semantics."""
+    """Evaluate the implementation's outputs on the disagreeing inputs against the reference semantics
+    (smallest inputs first, bounded number of tries, wall-clock budget)."""
+    cands = [m for m in mismatches if "request" in m]
+    cands.sort(key=lambda m: len(m["request"]))
     reqs, idx = [], []
-    for i, m in enumerate(mismatches[:200]):
-        if "request" not in m:
-            continue
-        q = cex_request(m["request"], m["impl"])
+    for m in cands[:40]:
+        q = cex_request(m["request"], m["impl"], tries=400)
         if q:
             reqs.append(q)
-            idx.append(i)
+            idx.append(m)
     if not reqs:
         return None
-    answers = ask_driver(reqs)
-    for i, a in zip(idx, answers):
+    answers = ask_driver(reqs, timeout=SEARCH_BUDGET_S)
+    for m, a in zip(idx, answers):
         if a.startswith("(found"):
-            m = mismatches[i]
             return {"input_request": m["request"], "implementation_output": m["impl"], "model_output": m["model"],
                     "origin": m.get("origin"), "bounded_countermodel": a,
                     "note": "candidate failing input: the implementation's output evaluated against the reference semantics over a finite window "
@@ -225,6 +235,57 @@ def c10_extra(tier, seed, outdir, broken, violations, findings_seen):
     return stats
 
 
+def roundtrip_extra(pid, lang):
+    """extra(): print/parse round trip on the real parsers (harness `roundtrip`), failures classified."""
+    def extra(tier, seed, outdir, broken, violations, findings_seen):
+        n = 3000 if tier == "quick" else 100000
+        p = subprocess.run([str(VERIF / "harness/target/debug/verif-harness"), "roundtrip", "--seed", str(seed), "--n", str(n)],
+                           stdout=subprocess.PIPE, text=True, timeout=3600)
+        try:
+            d = json.loads(p.stdout)
+        except Exception:
+            broken.append({"kind": "roundtrip-harness", "detail": p.stdout[-500:]})
+            return {}
+        known = {k["class"]: k for k in load_known(pid) if "class" in k}
+        seen, mine = set(), 0
+        for c in d["cases"]:
+            if c["lang"] != lang:
+                continue
+            mine += 1
+            cls = c["class"]
+            if lang == "fol" and " <- " in c["printed"]:
+                cls = "comparison-before-reverse-implication"
+            if cls in known:
+                seen.add(cls)
+            else:
+                violations.append({"property": pid, "kind": "print/parse round trip fails on the implementation", "class": cls,
+                                   "accepted_text": c["text"], "printed": c["printed"], "what": c["what"]})
+        for c in sorted(seen):
+            findings_seen.append(known[c]["what"])
+        return {"evaluations": d["tried"] // 2, "distinct_nontrivial": d["in_image"] // 2,
+                "samples": [f"{d['in_image']} of {d['tried']} fully parenthesised renderings of generated trees (both languages) were accepted; each accepted tree was printed, re-parsed and printed again"],
+                "roundtrip_failures_this_language": mine, "known_classes_seen": sorted(seen)}
+    return extra
+
+
+def c16_extra(tier, seed, outdir, broken, violations, findings_seen):
+    import cli
+    ok, log = cli.build_cli()
+    if not ok:
+        broken.append({"kind": "cli-build", "detail": log})
+        return {}
+    stats, failures, known_seen = cli.crash_exploration(1200 if tier == "quick" else 40000, seed)
+    known = {k["class"]: k for k in load_known("C16") if "class" in k}
+    for c in sorted(known_seen):
+        if c in known:
+            findings_seen.append(known[c]["what"])
+        else:
+            failures.append({"outcome": "panic", "class": c, "note": "crash class not listed as known finding"})
+    for f in failures[:10]:
+        violations.append(dict(f, property="C16", kind="CLI crashed (panic / signal / timeout) on an input outside the known classes"))
+    return stats
+
+
 def replay(pid, path):
     doc = json.loads(Path(path).read_text())
     print(json.dumps(doc, indent=1)[:4000])
@@ -232,7 +293,7 @@ def replay(pid, path):
 
 
 HOOK_COMMITS = ["ffc8b2b"]
-FIX_COMMITS = ["b9b9933", "8154c20", "f1b4fb0", "9b44a2c"]
+FIX_COMMITS = ["ca17dcd", "3401bdf", "db0baa0", "3af4e16", "b9b9933", "8154c20", "f1b4fb0", "9b44a2c"]
 NOT_YET = {}
 
 PROOF_NOTE = ("Trusted: Lean kernel; Semantics/*.lean as the specification; the correspondence harness and serialisers; "
@@ -363,7 +424,7 @@ PROPS = {
         "assumptions": COMMON_ASSUME,
     },
     "C19": {
-        "suites": [("strong", 400, 8000), ("break_eq", 1000, 20000), ("external", 300, 6000)],
+        "suites": [("strong", 400, 8000), ("break_eq", 1000, 20000), ("external", 300, 6000), ("decompose", 2000, 50000)],
         "rule": "as C03 (all flag combinations) + break_equivalences_formula on seeded formulas with equivalences under universal prefixes",
         "level_text": "Full for decomposition and eq-break: independent_refutes, sequential_refutes, decomposition_invariant, break_equiv(_ht), families_invariant proved for all problems, "
                       "interpretations and assignments; the simplify flag reduces to C07 (map_equiv_all), whose classic part is partial.",
@@ -388,7 +449,7 @@ PROPS = {
         "assumptions": COMMON_ASSUME,
     },
     "C09": {
-        "suites": [("strong_text", 300, 6000)],
+        "suites": [("strong_text", 300, 6000), ("external_text", 150, 3000), ("decompose", 1000, 20000)],
         "extra": tptp_validate("C09", "strong_text"),
         "rule": "whole problem texts (preamble, declarations, symbol order axioms, formulas) of seeded strong-equivalence tasks under all flag combinations vs Lean `Problem.tptpText`; "
                 "each text parsed by tptp4X; model-side name-hygiene analysis of every problem, classes matched against known_findings.jsonl",
@@ -471,6 +532,46 @@ PROPS = {
         "technique": "Lean 4 proof (list filtering/permutation lemmas) + differential correspondence on real directory trees",
         "design_ref": "DESIGN.md 6/C20",
         "trusted_base": COMMON_TRUST + ["walkdir / filesystem enumeration (modelled)"],
+        "assumptions": COMMON_ASSUME,
+    },
+    "C14": {
+        "suites": [("print", 4000, 100000)],
+        "extra": roundtrip_extra("C14", "asp"),
+        "rule": "(a) Display of generated programs vs the Lean printer model, text equality; (b) round trip on the real pest parser: a generated tree (identifier pool incl. not, nota, notify, forall, _a) is rendered fully "
+                "parenthesised, parsed (tree t1 in the parser's image), printed, re-parsed (must equal t1) and printed again (must be the same text)",
+        "level_text": "Partial: the printer is modelled exactly and its grouping facts are proved (unary minus vs negative numerals, parenthesisation by binding strength, neck of constraints); the pest parser is not modelled, "
+                      "so the round trip is explored, not proved; one known finding (identifier `not`).",
+        "level_note": PROOF_NOTE + " pest's PEG matching and Pratt parser are exercised, not modelled.",
+        "technique": "Lean 4 (printer model + grouping lemmas) + differential correspondence (text) + round-trip exploration on the real parser",
+        "design_ref": "DESIGN.md 6/C14",
+        "trusted_base": COMMON_TRUST + ["pest parser (exercised, not modelled)"],
+        "assumptions": COMMON_ASSUME,
+    },
+    "C15": {
+        "suites": [("print", 4000, 100000)],
+        "extra": roundtrip_extra("C15", "fol"),
+        "rule": "as C14 for the target language: formulas (all connectives, quantifier prefixes, chained comparisons, sorted variables and constants, predicate names notify / forallx / existsx / andy / orb / input / spec) "
+                "as theories; user guides and specifications are covered by the text correspondence of their printers",
+        "level_text": "Partial: printers modelled exactly; quantified_atomic proved (parentheses exactly when the atomic body begins with a variable); precedence behaviour kernel-checked on instances; the pest parser is not "
+                      "modelled, the round trip is explored; two genuine defects repaired (db0baa0, 3af4e16), one known finding (comparison before `<-`).",
+        "level_note": PROOF_NOTE + " pest's PEG matching and Pratt parser are exercised, not modelled.",
+        "technique": "Lean 4 (printer model + lemma) + differential correspondence (text) + round-trip exploration on the real parser",
+        "design_ref": "DESIGN.md 6/C15",
+        "trusted_base": COMMON_TRUST + ["pest parser (exercised, not modelled)"],
+        "assumptions": COMMON_ASSUME,
+    },
+    "C16": {
+        "suites": [("substitute", 2000, 40000), ("tau_star", 1500, 30000), ("tptp", 1500, 30000)],
+        "extra": c16_extra,
+        "rule": "(a) panic predicates of the model vs real panics (catch_unwind) of substitute / tau* / the TPTP printer on generated inputs incl. sort-incompatible substitutions, V<usize::MAX>, isize::MIN/MAX; "
+                "(b) the real CLI on byte strings obtained by mutating the repo's example files and adversarial seeds (token deletion / duplication / swap, numeral inflation to the integer limits, operator soup, "
+                "unbalanced and deep parentheses, empty and comment-only files) through parse / translate / simplify / analyze / verify --no-proof-search: outcome class output | error+non-zero exit | panic | signal | timeout(20 s)",
+        "level_text": "Partial: substitute_panic_free (no panic on sort-compatible arguments, for every formula and every renaming), globals_panic_iff, tptp_panic_free proved on the model; two crashes repaired (ca17dcd, 3401bdf); "
+                      "two crash classes remain as known findings (numerals beyond the integer type, global index overflow); stack depth, allocation and hangs are not expressible in the model and are covered by the CLI exploration only.",
+        "level_note": PROOF_NOTE + " The pest parsers and the tree builders' integer parsing are exercised, not modelled.",
+        "technique": "Lean 4 proof (panic-site predicates of the model) + differential correspondence of panics + CLI mutation exploration",
+        "design_ref": "DESIGN.md 6/C16",
+        "trusted_base": COMMON_TRUST + ["OS / allocator / stack behaviour (explored only)"],
         "assumptions": COMMON_ASSUME,
     },
 }
